@@ -157,10 +157,13 @@ def project_resize(raw):
     init = int(m.group(1)) if m else 2
     order = lambda v: v.bit_length() - 1
     out.append('I %d' % order(init))
-    insec = set(); flagging = {}; linked = set(); pend = {}
+    insec = set(); flagging = {}; linked = set(); pend = {}; notbl = set()
     DRAIN = ('flush', 'mb', 'cas', 'xchg', 'or', 'lock', 'unlock')
     def done(t):
-        if t in flagging: out.append('D %d' % flagging.pop(t))
+        # the unlinking of a level is complete when the resize goes on to its next action (resizes are serialised by the resize mutex; with the
+        # partitioned path the flags are set by helper threads that have been joined by then)
+        for tid in sorted(flagging): out.append('D %d' % tid)
+        flagging.clear()
     OPS = ('add', 'addu', 'addr', 'lookup', 'nextdup', 'del', 'replace', 'trav', 'count')
     for p in ev:
         t, k = p[0], p[1]
@@ -169,8 +172,12 @@ def project_resize(raw):
         if k == 'note' and p[2] == 'alloc':
             tid = int(p[3][2:])
             if t == '-1' or tid == 0: continue                 # tables created by cds_lfht_new: part of the initial state
-            out.append('A %d %d' % (tid, order(int(p[4]) // 16) + 1))
-        elif k == 'note' and p[2] == 'free': done(t); out.append('F %d' % int(p[3][2:]))
+            nb_ = int(p[4]) // 16
+            if int(p[4]) % 16 or nb_ & (nb_ - 1): notbl.add(tid); continue     # not a bucket table (the work array of the partitioned resize)
+            out.append('A %d %d' % (tid, order(nb_) + 1))
+        elif k == 'note' and p[2] == 'free':
+            if int(p[3][2:]) in notbl: continue
+            done(t); out.append('F %d' % int(p[3][2:]))
         elif k == 'store' and p[2] == 'size+0': pend[t] = order(int(p[3][2:]))
         elif k == 'note' and p[2] == 'syncbegin': done(t); out.append('Y %s' % t)
         elif k == 'note' and p[2] == 'syncend': out.append('Z %s' % t)
@@ -179,7 +186,8 @@ def project_resize(raw):
         elif k == 'load' and p[2] == 'size+0' and t in insec: out.append('R %s %d' % (t, order(int(p[-1]))))
         elif k in ('load', 'cas', 'or', 'xchg') and p[2].startswith('tb'):
             tid = int(p[2][2:].split('+')[0])
-            if k == 'or': out.append('U %d' % tid); flagging[t] = tid      # REMOVED flag set by the resizer on a bucket node of that table
+            if tid in notbl: continue
+            if k == 'or': out.append('U %d' % tid); flagging[tid] = 1      # REMOVED flag set by the resizer on a bucket node of that table
             elif t in insec: out.append('Q %s %d' % (t, tid))                                    # a read-side section touches the table
         if k in ('load', 'cas', 'xchg') and t in insec:
             mv = re.match(r'&tb(\d+)\+', p[-1])
@@ -243,6 +251,9 @@ def check_flags(ctx, what, cases, raws, driver):
 SRCS = [REPO + s for s in L0.LFHT_SRCS]
 def build(ctx):
     return build_scenario(ctx, 'scen_lfhtx', 'scen_lfhtx.c', extra_src=SRCS)
+def build_part(ctx):
+    """variant in which every resize level takes the partitioned multi-thread path (hook URCU_VERIF_MIN_PARTITION_PER_THREAD_ORDER)"""
+    return build_scenario(ctx, 'scen_lfhtx_part', 'scen_lfhtx.c', extra_src=SRCS, defs=['-DURCU_VERIF_MIN_PARTITION_PER_THREAD_ORDER=0'])
 
 def gen(ctx, progs, n, pid, confs=(('2', '8', 'o'),)):
     for prog in progs:          # a node may be handed to the table by one operation only
